@@ -525,7 +525,7 @@ def _strip_returns(cfg, r):
             elif f["prestate"] == "stale":
                 f["content"] = projgen.render(k, cfg["stale_ir"], kd["name"], kd["method"], b, a)
             elif f["prestate"] == "near":
-                f["near_ir"]["returns"] = None
+                f["near_ir"]["returns"] = cfg["ir"]["returns"]
                 f["content"] = projgen.render(k, f["near_ir"], kd["name"], kd["method"], b, a)
     return cfg
 
